@@ -227,7 +227,8 @@ pub fn literal_record(args: &[String]) {
     let mut rng = rng(seed, 60);
     let fixed = ["0.1", "0.2", "0.3", "1.10", "1.0", "1.00", "1.", "0", "00", "007", "007.50", "1.2.3", "1e5", "1e+5", "1E-2", "1..2", "12e", "3.e1", "1.5.",
                  "79228162514264337593543950335", "7922816251426433759354395033.5", "0.0000000000000000000000000001", "9999999999999999999999999999",
-                 "1234567890.123456789012345678", "0.10", "100", "1e", "2E", "1-2", "5.50"];
+                 "1234567890.123456789012345678", "0.10", "100", "1e", "2E", "1-2", "5.50", "0.0000000000000000000000000001.5", "0.1234567890123456789012345678.5",
+                 "0.1234567890123456789012345678..", "1234567890123456789012345678.5.6", "0.12345678901234567890123456789.25"];
     for k in 0..n {
         let text: String = if (k as usize) < fixed.len() {
             fixed[k as usize].to_string()
